@@ -1045,7 +1045,10 @@ def rot_from_atoms(run, repo):
     for geom, natoms, angle, moments in cases:
         for route in ('RigidRotor(atoms=...)', 'get_rot_temperatures_from_atoms(atoms)',
                       'get_rot_temperatures_from_atoms(atoms, geometry)'):
-            I = Interp(repo, order=RankOrder({}, const_ranks=True))
+            # comparisons among expressions in the coordinates are answered at a witness point (a generic placement)
+            I = Interp(repo, order=RankOrder({'x1': Fr(3, 7), 'y1': Fr(-5, 11), 'z1': Fr(2, 13), 'x2': Fr(-9, 17),
+                                              'y2': Fr(4, 19), 'z2': Fr(8, 23), 'm_at': Fr(12, 1)},
+                                             const_ranks=True, witness=True))
             D = I.D
             generic_point(I)
             h, kb, pi = D.sym('h'), D.sym('kb'), D.sym('pi')
